@@ -114,9 +114,17 @@ def analyse(cls_name, data, a, b, fractions, nodes=GRID_NODES):
     idx = [int(round((srt[int(q * (srt.size - 1))] - c - lo) / du)) for q in CDF_Q]
     idx += [int(round(((srt[0] - c) - 3 * sd_s - lo) / du)), int(round(((srt[-1] - c) + 3 * sd_s - lo) / du))]
     idx = np.array(sorted(set(int(min(max(i, 0), nodes - 1)) for i in idx)))
+    # the points are handed over in a scrambled order (a permutation that is not its own inverse) and put back in order here
+    scr = np.roll(np.arange(idx.size), 2)
+    if idx.size >= 4:
+        scr[[0, 3]] = scr[[3, 0]]
     with lib(f"cdf-{cls_name}"):
-        F = np.asarray(est.cdf(x[idx].copy()), dtype=float)
+        Fs = np.asarray(est.cdf(x[idx][scr].copy()), dtype=float)
         F0 = float(est.cdf(float(x[idx[len(idx) // 2]])))
+    if Fs.shape != (idx.size,):
+        raise LibFailure(f"cdf-{cls_name}", ValueError(f"cdf of {idx.size} points has shape {Fs.shape}"))
+    F = np.empty_like(Fs)
+    F[scr] = Fs
     nev += 2
     A.cdf_idx, A.cdf = idx, F
     A.cdf_scalar = F0
@@ -302,7 +310,7 @@ EVALUATORS = {"block": ev_block}
 def run(ck):
     seed, quick = ck.seed, ck.quick
     stride = [None, 7, 11, 13][seed % 4]
-    fams = {"GaussianKDE": ["normal", "gamma3", "t6", "bimodal-c19"], "UnimodalPdf": ["normal", "gamma3", "t6"]}
+    fams = {"GaussianKDE": ["normal", "gamma3", "t6", "bimodal-c19", "gamma3-left"], "UnimodalPdf": ["normal", "gamma3", "t6", "gamma3-left"]}
     scales, locs, fractions, sizes = SCALES, LOCS, FRACTIONS, (300, 3000)
     if not quick:
         for v in fams.values():
